@@ -17,6 +17,7 @@ type Clause struct {
 	E    *Expr
 	Loop int    // for loop clauses
 	At   string // for assert: anchor
+	Havoc []*Clause // for rely: locations another goroutine may have changed while this one was blocked
 	File string
 	Line int
 }
@@ -61,6 +62,7 @@ type Contract struct {
 	AssignsInferred bool
 	Loops    map[int][]*Clause
 	Asserts  []*Clause
+	Relies   []*Clause // assumed guarantees of concurrent counterparts at blocking points (select / receive)
 	Pure     bool
 	File     string
 	Line     int
@@ -78,7 +80,7 @@ type ContractSet struct {
 	Order   []string
 }
 
-var kwRe = regexp.MustCompile(`^(func|trusted|spec|opaque|declare|axiom|lemma|constglobal|props|requires|reveal|domain|ensures|assigns|loop|inline|light|assert|pure|stable|ghost|maypanic|note)\b`)
+var kwRe = regexp.MustCompile(`^(func|trusted|spec|opaque|declare|axiom|lemma|constglobal|props|requires|reveal|domain|ensures|assigns|loop|inline|light|assert|rely|pure|stable|ghost|maypanic|note)\b`)
 var nameRe = regexp.MustCompile(`^\[([A-Za-z0-9_\-:#.]+)\]\s*`)
 
 func newContractSet() *ContractSet {
@@ -292,6 +294,39 @@ func (cs *ContractSet) readContractFile(path, pkgPath string) error {
 			c.Name = name
 			c.At = strings.TrimSpace(rest[:i])
 			cur.Asserts = append(cur.Asserts, c)
+		case "rely":
+			// rely[name] after select[#k] [havoc lv, lv] : expr
+			// An assumption about what other goroutines guarantee while this one is blocked.
+			if cur == nil {
+				return fail("rely outside func")
+			}
+			name := ""
+			if m := nameRe.FindStringSubmatch(rest); m != nil {
+				name = m[1]
+				rest = rest[len(m[0]):]
+			}
+			i := strings.Index(rest, " : ")
+			if i < 0 {
+				return fail("rely needs 'after select[#k] [havoc lvalues] : expr'")
+			}
+			c, err := mkClause("rely", strings.TrimSpace(rest[i+3:]), path, s.line)
+			if err != nil {
+				return fail("%v", err)
+			}
+			c.Name = name
+			at := strings.TrimSpace(rest[:i])
+			if j := strings.Index(at, " havoc "); j >= 0 {
+				for _, part := range splitTop(at[j+7:], ',') {
+					h, err := mkClause("assigns", strings.TrimSpace(part), path, s.line)
+					if err != nil {
+						return fail("%v", err)
+					}
+					c.Havoc = append(c.Havoc, h)
+				}
+				at = strings.TrimSpace(at[:j])
+			}
+			c.At = at
+			cur.Relies = append(cur.Relies, c)
 		case "spec", "opaque", "declare":
 			opaque := false
 			if word == "opaque" {
